@@ -190,7 +190,10 @@ def g_schema(draw):
             props.append({'name': 'Pr%d_%d%s' % (i, k, t[:2].upper()),
                           'type': t, 'is_array': is_arr, 'key': False,
                           'value': dflt, 'embedded': emb, 'refclass': None})
-        cnss = list(range(nns)) if draw(S._I10) < 7 else \
+        # half of the classes live in one namespace only, so that the
+        # namespaces of one schema have different class trees under equal
+        # names
+        cnss = list(range(nns)) if draw(S._I10) < 5 else \
             [draw(S._I10) % nns]
         if sup is not None:
             cnss = [n for n in cnss if n in classes[sup]['nss']] or \
